@@ -86,6 +86,14 @@ def gen_case(rng):
             case["actors"] = [[[["call", o[1], o[2]] for o in sc] for sc in scs] for scs in actors]
             case["mmap"] = rng.random() < 0.5
         return case
+    if rng.random() < 0.12:
+        # churn: wrappers created (Memory.eval) and first calls made while the cache is cleared again and again --
+        # directories are created, removed and re-created under the users' feet
+        fn = rng.choice(FUNCS)
+        actors = [[[[rng.choice(["eval", "eval", "call"]), fn, rng.choice([1, 2])] for _ in range(rng.randint(2, 3))]]
+                  for _ in range(rng.choice([1, 2, 2]))]
+        actors += [[[rng.choice([["clear"], ["clear"], ["fclear", fn]]) for _ in range(rng.randint(2, 3))]] for _ in range(rng.choice([1, 1, 2]))]
+        focus = False
     case = {"actors": actors, "prefill": rng.random() < (0.1 if focus else 0.5), "sched_seed": rng.randrange(1 << 31),
             "strategy": rng.choice(["random", "sticky", "sticky", "pct", "targeted", "targeted"]),
             "kills": rng.choice([0, 0, 0, 1, 2]), "compress": rng.random() < 0.15}
